@@ -91,6 +91,10 @@ fn main() {
             c04::gen(&mut run, &out);
             return;
         }
+        ("gen", "C03") => {
+            c03::gen(&mut run, &out);
+            return;
+        }
         ("gen", "C01") => {
             c01::gen(&mut run, &out);
             return;
